@@ -37,7 +37,11 @@ class C04(TalCheck):
             return vs
         rr, mr = r["raise"], m["raise"]
         if rr is None and mr is None:
-            if r["out"] != m["out"]:
+            if r["out"] != m["out"] and m.get("guard_relevant") and \
+                    run_model(tmpl, plan, hcfg,
+                              guard_tags=False)["out"] == r["out"]:
+                pass        # (C13's known finding, not an evaluation matter)
+            elif r["out"] != m["out"]:
                 vs.append({"kind": "result", "sig": "result",
                            "detail": f"rendered {r['out']!r}\n expected "
                                      f"{m['out']!r}"})
